@@ -6,7 +6,12 @@
    document grammar (C02's constructs):
 
      para     a paragraph of inline items
-     sec      a heading of level 2..4 with inline items, ALWAYS followed by body text
+     sec      a heading of level 2..4 with inline items, directly followed by a body paragraph
+     head     a heading of level 2..4 alone; the blocks that follow it up to the next heading
+              are the section's body.  Productions that contain a head are whole sections:
+              the FIRST and the LAST body block can be of any kind (paragraph, list, pre,
+              table, floating / centred figure, gallery, block template), and body text
+              (a paragraph / list / pre / table / block template) is always somewhere in it
      list     list lines, each a prefix over * # ; : (nesting = prefix length) and inline items
      pre      preformatted lines (leading blank)
      table    optional caption, rows of header/data cells; a cell holds inline items and
@@ -32,22 +37,25 @@
    invariants at the end.  What is legitimately NOT denoted: link targets of labelled links,
    URLs, alt text of inline images, chapter titles (not a word "of an article").
 
-   Generation: Init chooses the plan (blocks per article) and the chapter layout; AddBlock
+   Generation: Init chooses the plan (productions per article; a production contributes one
+   block or a short sequence of blocks) and the chapter layout; AddBlock
    appends one production to the current article; Finish closes the collection.  Palette
    selects the production set: "mini" / "core" (four / eight productions, one per construct,
-   for exhaustive multi-article enumeration), "full" (every variant once, exhaustive for single articles), "rich"
+   for exhaustive multi-article enumeration), "pairs" (whole articles  [heading] text X heading
+   Y text  for EVERY ordered pair (X, Y) of block kinds: the last block of a section against
+   the first block of the next one, plus every ordered pair of adjacent figures), "full" (every variant once, exhaustive for single articles), "rich"
    (parameterised productions, for -simulate). *)
 EXTENDS Naturals, Sequences, FiniteSets, TLC, Json
 
 CONSTANTS MaxArts,      \* 1..4
           MaxBlocks,    \* blocks per article
           MinBlocks,    \* 1 normally; = MaxBlocks to enumerate exactly-k-block articles
-          Palette,      \* "mini" | "core" | "full" | "rich"
+          Palette,      \* "mini" | "core" | "full" | "pairs" | "rich"
           Chapters,     \* BOOLEAN: chapter layouts enumerated (FALSE: no chapters)
           EmitCases     \* TRUE: print every finished collection as JSON (P-ENUM)
 
-VARIABLES plan, chap, arts, den, nw, phase
-vars == <<plan, chap, arts, den, nw, phase>>
+VARIABLES plan, chap, arts, den, nw, np, phase
+vars == <<plan, chap, arts, den, nw, np, phase>>
 
 TitleWord(i)   == 700 + i
 ChapterWord(i) == 800 + i
@@ -81,11 +89,12 @@ RF(n)          == [t |-> "ref", w |-> n]
 TC(tp, n)      == [t |-> "tc", tp |-> tp, w |-> n]
 IM(i, n)       == [t |-> "img", i |-> i, w |-> n]
 FG(i, k, n, s) == [t |-> "fig", i |-> i, k |-> k, w |-> n, s |-> s]
-FigKinds == {"thumb", "frame", "left", "right"}
+FigKinds == {"thumb", "frame", "left", "right", "center"}   \* "center" does not float
 
 \* blocks
 Para(xs)            == [b |-> "para", xs |-> xs]
 Sec(l, xs, body)    == [b |-> "sec", l |-> l, xs |-> xs, body |-> body]
+Hd(l, xs)           == [b |-> "head", l |-> l, xs |-> xs]
 Line(p, xs)         == [p |-> p, xs |-> xs]
 List(ls)            == [b |-> "list", ls |-> ls]
 Pre(ls)             == [b |-> "pre", ls |-> ls]
@@ -121,6 +130,7 @@ DenBlocks(bs, c) == Flat([k \in 1..Len(bs) |-> DenBlock(bs[k], c)])
 DenBlock(b, c) ==
   CASE b.b = "para"    -> DenItems(b.xs, c \o "para")
     [] b.b = "sec"     -> DenItems(b.xs, c \o "heading") \o DenItems(b.body, c \o "section-body")
+    [] b.b = "head"    -> DenItems(b.xs, c \o "heading")
     [] b.b = "list"    -> Flat([k \in 1..Len(b.ls) |-> DenItems(b.ls[k].xs, c \o "list-item")])
     [] b.b = "pre"     -> Flat([k \in 1..Len(b.ls) |-> DenItems(b.ls[k], c \o "pre")])
     [] b.b = "table"   -> DenItems(b.cap, c \o "table-caption")
@@ -142,6 +152,7 @@ RECURSIVE ItemsBlock(_)
 ItemsBlock(b) ==
   CASE b.b = "para"    -> Range(b.xs)
     [] b.b = "sec"     -> Range(b.xs) \cup Range(b.body)
+    [] b.b = "head"    -> Range(b.xs)
     [] b.b = "list"    -> UNION {Range(b.ls[k].xs) : k \in 1..Len(b.ls)}
     [] b.b = "pre"     -> UNION {Range(b.ls[k]) : k \in 1..Len(b.ls)}
     [] b.b = "table"   -> Range(b.cap) \cup
@@ -159,9 +170,11 @@ TplsOf(bs)   == UNION {TplDeps(x.tp) : x \in {y \in ItemsOf(bs) : y.t = "tc"}}
 ImgsOf(bs)   == {x.i : x \in {y \in ItemsOf(bs) : y.t \in {"img", "fig", "gi"}}}
 
 -----------------------------------------------------------------------------
-(* productions: Blocks(n) is the set of [blk, used] available when n is the next fresh word;
-   used = number of consecutive fresh words n .. n+used-1 the block consumes *)
-P(blk, used) == [blk |-> blk, used |-> used]
+(* productions: Blocks(n) is the set of [blks, used] available when n is the next fresh word;
+   blks = the block(s) the production appends, used = number of consecutive fresh words
+   n .. n+used-1 they consume *)
+P(blk, used)   == [blks |-> <<blk>>, used |-> used]
+PS(blks, used) == [blks |-> blks, used |-> used]
 
 \* an inline item by kind name: a style, a link/ref kind, an inline template, an inline image
 ItemKinds == Styles \cup {"ll", "lb", "le", "ref", "im1", "im2", "im3"} \cup InlineTemplates
@@ -225,13 +238,66 @@ Full(n) ==
          \* a list inside a cell
          P(Table(<<>>, <<<<PlainCell(n), Cell(FALSE, <<>>, <<ListOf(n + 1, <<"*", "*">>, "n")>>)>>>>), 3),
          \* a nested table
-         P(Table(<<>>, <<<<PlainCell(n), Cell(FALSE, <<>>, <<Table(<<>>, Grid(n + 1, 1, 2, "none"))>>)>>>>), 3) }
+         P(Table(<<>>, <<<<PlainCell(n), Cell(FALSE, <<>>, <<Table(<<>>, Grid(n + 1, 1, 2, "none"))>>)>>>>), 3),
+         \* a nested table with its own caption
+         P(Table(<<>>, <<<<PlainCell(n), Cell(FALSE, <<>>, <<Table(<<W(n + 1, "n")>>, Grid(n + 2, 1, 2, "row"))>>)>>>>), 4) }
   \cup { P(Fig(FG(i, k, n, "n")), 1) : i \in {1, 2}, k \in FigKinds }
   \cup { P(Fig(FG(3, "thumb", n, "b")), 1) }
   \cup { P(Gallery(0, 0, [k \in 1..m |-> GI(((k - 1) % 3) + 1, n + k - 1, "n")]), m) : m \in 1..4 }
   \cup { P(Gallery(n + 2, 0, <<GI(1, n, "n"), GI(1, n + 1, "i")>>), 3),
          P(Gallery(0, 2, <<GI(1, n, "n"), GI(2, n + 1, "n"), GI(3, n + 2, "n")>>), 3) }
   \cup { P(Tpl(tp, n), 1) : tp \in BlockTemplates }
+
+\* one representative block per kind, as [blk, used] (floating right, floating left, centred figure
+\* on different images)
+BlockKinds == <<"para", "list", "pre", "table", "figr", "figl", "figc", "gallery", "tpl">>
+KB(kind, n) ==
+  CASE kind = "para"    -> [blk |-> Para(<<W(n, "n"), W(n + 1, "b")>>), used |-> 2]
+    [] kind = "list"    -> [blk |-> ListOf(n, <<"*", "**">>, "n"), used |-> 2]
+    [] kind = "pre"     -> [blk |-> Pre(<<<<W(n, "n")>>>>), used |-> 1]
+    [] kind = "table"   -> [blk |-> Table(<<>>, Grid(n, 1, 2, "none")), used |-> 2]
+    [] kind = "figr"    -> [blk |-> Fig(FG(1, "thumb", n, "n")), used |-> 1]
+    [] kind = "figl"    -> [blk |-> Fig(FG(2, "left", n, "n")), used |-> 1]
+    [] kind = "figc"    -> [blk |-> Fig(FG(3, "center", n, "n")), used |-> 1]
+    [] kind = "gallery" -> [blk |-> Gallery(0, 0, <<GI(3, n, "n")>>), used |-> 1]
+    [] kind = "tpl"     -> [blk |-> Tpl("Ttable", n), used |-> 1]
+TextyKinds == {"para", "list", "pre", "table", "tpl"}
+Levels == <<<<2, 2>>, <<2, 3>>, <<3, 2>>, <<2, 4>>>>
+
+\* a whole section  heading, first, [text], last : first and last of any kind, body text somewhere
+SectionOf(l, kf, kl, n) ==
+  LET f == KB(kf, n + 1)
+      needtext == kf \notin TextyKinds /\ kl \notin TextyKinds
+      t == IF needtext THEN 1 ELSE 0
+      la == KB(kl, n + 1 + f.used + t) IN
+  PS(<<Hd(l, <<W(n, "n")>>), f.blk>> \o (IF needtext THEN <<Para(<<W(n + 1 + f.used, "n")>>)>> ELSE <<>>) \o <<la.blk>>,
+     1 + f.used + t + la.used)
+
+\* a whole article:  [heading] text X heading Y text  — X is the last block of a section (of the
+\* lead section when lead), Y the first block of the next one
+PairArticle(kx, ky, lv, lead, n) ==
+  LET h == IF lead THEN 0 ELSE 1
+      x == KB(kx, n + h + 1)
+      y == KB(ky, n + h + 2 + x.used) IN
+  PS((IF lead THEN <<>> ELSE <<Hd(lv[1], <<W(n, "n")>>)>>)
+     \o <<Para(<<W(n + h, "n")>>), x.blk, Hd(lv[2], <<W(n + h + 1 + x.used, "n")>>), y.blk,
+          Para(<<W(n + h + 2 + x.used + y.used, "n")>>)>>,
+     h + 3 + x.used + y.used)
+\* two adjacent figures between text
+FigPair(kx, ky, n) ==
+  PS(<<Para(<<W(n, "n")>>), KB(kx, n + 1).blk, KB(ky, n + 2).blk, Para(<<W(n + 3, "n")>>)>>, 4)
+FigKindNames == {"figr", "figl", "figc"}
+
+Pairs(n) ==
+  { PairArticle(BlockKinds[i], BlockKinds[j], Levels[((i + j) % 4) + 1], (i + 2 * j) % 3 = 0, n) :
+      i \in 1..Len(BlockKinds), j \in 1..Len(BlockKinds) }
+  \cup { FigPair(kx, ky, n) : kx \in FigKindNames, ky \in FigKindNames }
+  \cup { PS(<<Para(<<W(n, "n")>>), KB(k, n + 1).blk>>, 2) : k \in FigKindNames }     \* a figure ends the article
+\* thorough: every pair with every level combination, with and without a heading of the first section
+PairsAll(n) ==
+  Pairs(n) \cup
+  { PairArticle(BlockKinds[i], BlockKinds[j], Levels[v], lead, n) :
+      i \in 1..Len(BlockKinds), j \in 1..Len(BlockKinds), v \in 1..Len(Levels), lead \in BOOLEAN }
 
 \* parameterised productions for random composition (-simulate)
 CellChoices(n) ==
@@ -250,11 +316,12 @@ Rich(n) ==
            a \in CellChoices(n), b \in {PlainCell(n + 1), HeadCell(n + 1)}, c \in {PlainCell(n + 2), FigCell(2, n + 2, "n")} }
   \cup { P(Table(<<W(n, "n")>>, <<<<a, b, PlainCell(n + 3)>>>>), 4) : a \in CellChoices(n + 1), b \in SomeCells(n + 2) }
   \cup { P(Fig(FG(i, k, n, s)), 1) : i \in Images, k \in FigKinds, s \in {"n", "b", "i"} }
+  \cup { SectionOf(l, BlockKinds[i], BlockKinds[j], n) : l \in 2..4, i \in 1..Len(BlockKinds), j \in 1..Len(BlockKinds) }
   \cup { P(Gallery(IF hc THEN n + m ELSE 0, pr, [k \in 1..m |-> GI(((k + off) % 3) + 1, n + k - 1, "n")]),
            IF hc THEN m + 1 ELSE m) :
            m \in 1..4, pr \in {0, 1, 2, 3}, off \in 0..2, hc \in BOOLEAN }
 
-Blocks(n) == CASE Palette = "mini" -> Mini(n) [] Palette = "core" -> Core(n) [] Palette = "full" -> Full(n) [] Palette = "rich" -> Rich(n)
+Blocks(n) == CASE Palette = "pairs" -> Pairs(n) [] Palette = "pairsall" -> PairsAll(n) [] Palette = "mini" -> Mini(n) [] Palette = "core" -> Core(n) [] Palette = "full" -> Full(n) [] Palette = "rich" -> Rich(n)
 
 -----------------------------------------------------------------------------
 Plans  == UNION {[1..k -> MinBlocks..MaxBlocks] : k \in 1..MaxArts}
@@ -265,28 +332,31 @@ Init == /\ plan \in Plans
         /\ arts = <<<<>>>>
         /\ den = <<<<DW(TitleWord(1), "article-title")>>>>
         /\ nw = 1
+        /\ np = 0
         /\ phase = "gen"
 
 cur == Len(arts)
 
 AddBlock ==
-  /\ phase = "gen" /\ Len(arts[cur]) < plan[cur]
+  /\ phase = "gen" /\ np < plan[cur]
   /\ \E p \in Blocks(nw) :
-       /\ arts' = [arts EXCEPT ![cur] = Append(@, p.blk)]
-       /\ den' = [den EXCEPT ![cur] = @ \o DenBlock(p.blk, "")]
+       /\ arts' = [arts EXCEPT ![cur] = @ \o p.blks]
+       /\ den' = [den EXCEPT ![cur] = @ \o DenBlocks(p.blks, "")]
        /\ nw' = nw + p.used
+  /\ np' = np + 1
   /\ UNCHANGED <<plan, chap, phase>>
 
 NewArticle ==
-  /\ phase = "gen" /\ Len(arts[cur]) = plan[cur] /\ cur < Len(plan)
+  /\ phase = "gen" /\ np = plan[cur] /\ cur < Len(plan)
   /\ arts' = Append(arts, <<>>)
   /\ den' = Append(den, <<DW(TitleWord(cur + 1), "article-title")>>)
+  /\ np' = 0
   /\ UNCHANGED <<plan, chap, nw, phase>>
 
 Finish ==
-  /\ phase = "gen" /\ Len(arts[cur]) = plan[cur] /\ cur = Len(plan)
+  /\ phase = "gen" /\ np = plan[cur] /\ cur = Len(plan)
   /\ phase' = "done"
-  /\ UNCHANGED <<plan, chap, arts, den, nw>>
+  /\ UNCHANGED <<plan, chap, arts, den, nw, np>>
 
 Next == AddBlock \/ NewArticle \/ Finish
 Spec == Init /\ [][Next]_vars /\ WF_vars(Next)
@@ -314,20 +384,33 @@ DenotedAreWritten ==
 TemplateWordsLaw ==
   \A i \in 1..Len(arts) : \A tp \in Templates :
     (tp \in TplsOf(arts[i])) <=> ({TplWords(tp)[k] : k \in 1..Len(TplWords(tp))} \subseteq DenWords(i))
-\* every section has body text
+\* every section has body text: a sec block carries it; after a head, a block with body text
+\* comes before the next heading
+HasText(b) == \/ b.b \in {"list", "pre", "table", "tpl"}
+              \/ b.b = "para" /\ \E k \in 1..Len(b.xs) : b.xs[k].t \in {"w", "ll", "lb", "le", "tc"}
+StartsSection(b) == b.b \in {"head", "sec"}
 SectionsHaveBody ==
-  \A k \in 1..Len(AllBlocks) : AllBlocks[k].b = "sec" => DenItems(AllBlocks[k].body, "") # <<>>
+  \A i \in 1..Len(arts) : \A k \in 1..Len(arts[i]) :
+    /\ arts[i][k].b = "sec" => DenItems(arts[i][k].body, "") # <<>>
+    /\ arts[i][k].b = "head" =>
+          \E j \in (k + 1)..Len(arts[i]) :
+             /\ HasText(arts[i][j])
+             /\ \A m \in (k + 1)..j : ~StartsSection(arts[i][m])
+\* the words of every heading are denoted
+HeadingsDenoted ==
+  \A i \in 1..Len(arts) : \A k \in 1..Len(arts[i]) :
+    StartsSection(arts[i][k]) => \A x \in Range(arts[i][k].xs) : x.t = "img" \/ x.w \in DenWords(i)
 \* the title of every article is denoted first
 TitlesDenoted == \A i \in 1..Len(den) : den[i][1].w = TitleWord(i)
 PlanRespected == Done => /\ Len(arts) = Len(plan)
-                         /\ \A i \in 1..Len(arts) : Len(arts[i]) = plan[i] /\ plan[i] >= 1
+                         /\ \A i \in 1..Len(arts) : Len(arts[i]) >= plan[i] /\ plan[i] >= 1
 TypeOK == /\ Len(arts) = Len(den) /\ Len(arts) <= Len(plan) /\ Len(plan) = Len(chap)
           /\ nw < 700 /\ UsedTemplates \subseteq Templates /\ UsedImages \subseteq Images
 
 Terminates == <>Done
 
 Laws == /\ TypeOK /\ AllocationLaw /\ WordsUnique /\ DenotedAreWritten /\ TemplateWordsLaw
-        /\ SectionsHaveBody /\ TitlesDenoted /\ PlanRespected
+        /\ SectionsHaveBody /\ HeadingsDenoted /\ TitlesDenoted /\ PlanRespected
 
 Case == [arts |-> arts, chap |-> chap, den |-> den,
          tpls |-> UsedTemplates, imgs |-> UsedImages, nwords |-> nw - 1]
